@@ -260,9 +260,13 @@ func (s *Search) one() (o Object, err error) {
 		return
 	}
 
-	// prevent collecting all results and using only one
+	// prevent collecting all results and using only one. The limit
+	// set by the user is restored so that the search can be collected again
+	limit := s.limit
 	s.limit = 1
-	if sr, err = s.collect(); err != nil {
+	sr, err = s.collect()
+	s.limit = limit
+	if err != nil {
 		return
 	}
 	o = sr[0]
@@ -285,10 +289,13 @@ func (s *Search) collect() (out []Object, err error) {
 		it.reversed()
 	}
 
+	// the limit is not consumed, the same search can be collected several times
+	limit := s.limit
+
 	out = make([]Object, 0, it.len())
-	for o, err = it.next(); err == nil && err != ErrEOI && s.limit > 0; o, err = it.next() {
+	for o, err = it.next(); err == nil && err != ErrEOI && limit > 0; o, err = it.next() {
 		out = append(out, o)
-		s.limit--
+		limit--
 	}
 
 	// normal end of iterator
